@@ -130,16 +130,14 @@ deriving Repr, DecidableEq
 /-- the exceptions of the modelled functions, by raise site -/
 inductive Err
   | invalidFilter     -- ValueError "Invalid allele filter": the regex does not match
-  | invalidOperator   -- ValueError "Invalid operator": the regex admits `<>`, `_COMPARATOR` does not
+  | invalidOperator   -- ValueError "Invalid operator": the regex accepts `<>`, `_COMPARATOR` does not
   | nonNumeric        -- ValueError "Non-numerical value": neither `int()` nor `float()` parses the value
   | notInHeader       -- ValueError "Allele filter field not found in header"
   | invalidLength     -- ValueError "Allele filter of field of invalid length"
   | assertion         -- AssertionError: number of observations ≠ number of alleles
-  | typeError         -- TypeError: ordering comparison / sum with a missing (`None`) value, `len()` of a scalar
+  | typeError         -- TypeError: ordering comparison with a missing (`None`) value, `len()` of a scalar
   | invalidHeader     -- ValueError "Invalid header": `record.info.get` of an undeclared tag
   | freqLength        -- ValueError "Field … does not match number of alleles"
-  | intDivide         -- UFuncTypeError: `frequencies /= denom` on an integer array
-  | intNan            -- ValueError: `frequencies[:] = np.nan` on an integer array
 deriving Repr, DecidableEq
 
 structure Filter where
@@ -287,7 +285,8 @@ def applyAlleleFilter (r : RecordM) (field : String) (op : Cmp) (v : Rat) : Exce
 structure LocusPriorM where
   keep : List Bool              -- per record allele: retained? (`keep[0]` is forced to True)
   maskRef : Bool                -- `mask_reference_allele`
-  raw : List Rat                -- values of the retained alleles before normalisation (masked REF = 0)
+  raw : List Rat                -- values of the retained alleles before normalisation (masked REF = 0, missing = 0)
+  nanRaw : Bool                 -- some retained value is missing: `np.array(.., dtype=float)` turns `None` into NaN
   freqs : Option (List Rat)     -- `frequencies`; `none` = all NaN
 deriving Repr
 
@@ -301,14 +300,14 @@ def normalise (raw : List Rat) : Option (List Rat) :=
 def select {α} (xs : List α) (keep : List Bool) : List α :=
   ((xs.zip keep).filter (·.2)).map (·.1)
 
-/-- the frequency array before masking: values, "numpy made an object array", "integer dtype" -/
-def frequencyArray (r : RecordM) (tag : Option String) :
-    Except Err (List (Option Rat) × Bool × Bool) :=
+/-- the frequency array before masking: `np.array(record.info[tag], dtype=float)` (a missing entry is NaN,
+    here `none`; Integer and Float fields alike) or the flat prior -/
+def frequencyArray (r : RecordM) (tag : Option String) : Except Err (List (Option Rat)) :=
   let n := r.nAlts + 1
   match tag with
-  | none => .ok (List.replicate n (some (1 / (n : Rat))), false, false)
+  | none => .ok (List.replicate n (some (1 / (n : Rat))))
   | some t =>
-    if t == "" then .ok (List.replicate n (some (1 / (n : Rat))), false, false) else
+    if t == "" then .ok (List.replicate n (some (1 / (n : Rat)))) else
     match findField r t with
     | none => .error .invalidHeader
     | some f =>
@@ -317,7 +316,7 @@ def frequencyArray (r : RecordM) (tag : Option String) :
       | some vs =>
         if f.number == .one then .error .typeError   -- `len()` of a scalar
         else if vs.length ≠ n then .error .freqLength
-        else .ok (vs, vs.any Option.isNone, f.isInt)
+        else .ok vs
 
 /-- the filter step of `from_variant_record`: the `keep` array (with `keep[0]` forced to True) and
     `mask_reference_allele` — a failing reference is masked, not removed -/
@@ -337,16 +336,14 @@ def filterKeep (r : RecordM) (filter : Option String) : Except Err (List Bool ×
 def maskedVals (maskRef : Bool) (vals : List (Option Rat)) : List (Option Rat) :=
   if maskRef then vals.set 0 (some 0) else vals
 
-/-- masking, sub-setting and normalisation of the frequency array -/
-def finishPrior (keep : List Bool) (maskRef : Bool) (vals : List (Option Rat))
-    (objDtype isInt : Bool) : Except Err LocusPriorM :=
+/-- masking, sub-setting and normalisation of the frequency array: a NaN among the retained values makes
+    the sum NaN, `denom > 0` false and the whole vector NaN -/
+def finishPrior (keep : List Bool) (maskRef : Bool) (vals : List (Option Rat)) : LocusPriorM :=
   let kept := select (maskedVals maskRef vals) keep
-  if kept.any Option.isNone then .error .typeError          -- object array: `float + None`
-  else
-    let raw := kept.map (fun x => x.getD 0)
-    if isInt && !objDtype then
-      (if 0 < sumRat raw then .error .intDivide else .error .intNan)
-    else .ok { keep := keep, maskRef := maskRef, raw := raw, freqs := normalise raw }
+  let raw := kept.map (fun x => x.getD 0)
+  let nan := kept.any Option.isNone
+  { keep := keep, maskRef := maskRef, raw := raw, nanRaw := nan,
+    freqs := if nan then none else normalise raw }
 
 /-- `LocusPrior.from_variant_record` (mask / filter / frequency part) -/
 def locusPrior (r : RecordM) (tag : Option String) (filter : Option String) :
@@ -356,7 +353,7 @@ def locusPrior (r : RecordM) (tag : Option String) (filter : Option String) :
   | .ok (keep, maskRef) =>
     match frequencyArray r tag with
     | .error e => .error e
-    | .ok (vals, objDtype, isInt) => finishPrior keep maskRef vals objDtype isInt
+    | .ok vals => .ok (finishPrior keep maskRef vals)
 
 /-! ## C16 — masking, sub-setting, relabelling in `call_sample_genotypes` -/
 
@@ -398,8 +395,19 @@ def callFrequencies (P : LocusPriorM) : List Rat :=
 def relabel (labels : List Nat) (g : List Nat) : Option (List Nat) :=
   optAll (g.map (fun a => labels[a]?))
 
-/-- `labels.max() + 1` — the `n_allele` of the relabelled trace on the current tree -/
+/-- `labels.max() + 1` — the default `n_allele` of `relabel(labels)` -/
 def relabelNAllele (labels : List Nat) : Nat := labels.foldl max 0 + 1
+
+/-- `relabel(labels, n_allele=None)`: the allele count of the relabelled trace -/
+def relabelNAlleleWith (labels : List Nat) (nAllele : Option Nat) : Nat :=
+  match nAllele with
+  | none => relabelNAllele labels
+  | some n => n
+
+/-- `trace.relabel(mcmc_haplotype_labels, n_allele=len(haplotypes))` in `call.py` / `call_pedigree.py`;
+    without masking the trace keeps `len(self.haplotypes)` of `CallingMCMC.fit` — the same number -/
+def callNAllele (P : LocusPriorM) : Nat :=
+  relabelNAlleleWith (callLabels P) (some P.raw.length)
 
 /-- `_posterior_frequencies`: per allele `0 .. nAllele-1` the number of copies over all retained
     genotypes (the code divides by the number of observations / ploidy afterwards) -/
